@@ -513,15 +513,6 @@ theorem C05_model_trimmedOp (c : Cfg) (now : Int) (q q' : Q) (op : Op) (ch : Cho
 actually looks up (`l0` verbatim on the memory backend, `trimWS l0` on SQLite). For it only
 `0 ≤ c.sweep` is needed. -/
 
-def Obs.C05.stepOK' (r : Rec) : Bool :=
-  match r.op, r.resp with
-  | .lease (.nack d) l0, .ok =>
-    r.before.all (fun m =>
-      !(liveLeased r.now m && m.lease == (if r.cfg.memory then l0 else trimWS l0)) ||
-      (match find r.after m.id with
-       | some m' => m'.st == .queued && m'.next == r.now + (if d < 0 then 0 else d)
-       | none => false))
-  | _, _ => C05.stepOK r
 
 theorem C05_model' (c : Cfg) (now : Int) (q q' : Q) (op : Op) (ch : Choice) (r : Resp)
     (hinv : Inv q) (_hclock : q.lastSweep ≤ now)
